@@ -414,10 +414,12 @@ package derive
 // mayRename(x): x was built with -autoname or -dedup and may return a name other than the one registered
 //@ func newTypesMap(qual types.Qualifier, prefix string, reserved map[string]struct{}, autoname bool, dedup bool) (r TypesMap)
 //@ assigns nothing
-//@ ensures r != nil && (mayRename(r) <==> (autoname || dedup))
+//@ ensures r != nil
+// C11: the type table resolves clashes by exactly the flags it was built with
+//@ ensures [flags-stored] castp(r, typesMap).autoname == autoname && castp(r, typesMap).dedup == dedup
 //@ func (g *Plugin) New(typesMap TypesMap, p Printer, deps map[string]Dependency) (r Generator)
 //@ assigns nothing
-//@ ensures r != nil && (mayRename(r) <==> mayRename(typesMap))
+//@ ensures r != nil && (mayRename(r) <==> (castp(typesMap, typesMap).autoname || castp(typesMap, typesMap).dedup))
 
 //@ func (c *call) HasUndefined() (r bool)
 //@ pure
@@ -442,6 +444,8 @@ package derive
 //@ ensures [pkg-plugins] err == nil ==> r.plugins == plugins
 //@ ensures [pkg-generators] err == nil ==> forall i int :: 0 <= i && i < len(plugins) ==> derive.Plugin.Name(plugins[i]) in r.generators && r.generators[derive.Plugin.Name(plugins[i])] != nil
 //@ assert-at-call derive.pkg.Add: forall i int, n string :: 0 <= i && i < len(fileInfos) && n in fileInfos[i].funcNames ==> n in reserved
+// C11: every plugin's type table gets the flags of this run, each in its own place
+//@ assert-at-call derive.newTypesMap: [flags-as-given] $arg3 == autoname && $arg4 == dedup
 // C10/C07: derived.gen.go goes to the directory of the package's first source file, as registered in the file set
 //@ assert-at-call filepath.Abs: [dir-of-the-first-source-file] $arg0 == fileInfos[0].fullpath
 //@ assert-at-call filepath.Dir: [dir-of-the-first-source-file] $arg0 == abs
@@ -451,7 +455,7 @@ package derive
 //@ assert-after-call format.Node: $ret0 != nil || fs[fileInfo.fullpath] == Format(fileInfo.astFile)
 //@ loop 1: invariant reserved != nil && forall i int, n string :: 0 <= i && i < $i && n in fileInfos[i].funcNames ==> n in reserved
 //@ loop 2: invariant typesmaps != nil && deps != nil
-//@ loop 2: invariant forall i int :: 0 <= i && i < $i ==> derive.Plugin.Name(plugins[i]) in typesmaps && typesmaps[derive.Plugin.Name(plugins[i])] != nil && (mayRename(typesmaps[derive.Plugin.Name(plugins[i])]) <==> (autoname || dedup))
+//@ loop 2: invariant forall i int :: 0 <= i && i < $i ==> derive.Plugin.Name(plugins[i]) in typesmaps && typesmaps[derive.Plugin.Name(plugins[i])] != nil && castp(typesmaps[derive.Plugin.Name(plugins[i])], typesMap).autoname == autoname && castp(typesmaps[derive.Plugin.Name(plugins[i])], typesMap).dedup == dedup
 //@ loop 3: invariant generators != nil && forall n string :: n in generators ==> generators[n] != nil
 //@ loop 3: invariant forall i int :: 0 <= i && i < $i ==> derive.Plugin.Name(plugins[i]) in generators && generators[derive.Plugin.Name(plugins[i])] != nil && (mayRename(generators[derive.Plugin.Name(plugins[i])]) <==> (autoname || dedup))
 //@ loop 4: invariant pkg != nil && pkg.plugins == plugins && pkg.generators == generators && pkg.printer == printer
@@ -529,6 +533,8 @@ package derive
 //@ ensures [derived-file-synced] err == nil ==> synced
 //@ ensures [user-files-intact] (!pg.autoname && !pg.dedup) ==> forall q string :: !isDerivedFile(q) ==> ((q in fs) <==> (q in old(fs))) && fs[q] == old(fs)[q]
 //@ ensures [only-derived-file-created-or-deleted] forall q string :: !isDerivedFile(q) ==> ((q in fs) <==> (q in old(fs)))
+// C11: the package is analysed under the flags the program was loaded with, each in its own place
+//@ assert-at-call derive.newPackage: [flags-as-loaded] $arg3 == pg.autoname && $arg4 == pg.dedup
 //@ assert-at-call derive.pkg.Print: derive.pkg.HasContent(pkgGen)
 //@ assert-at-call derive.pkg.Delete: !derive.pkg.HasContent(pkgGen)
 //@ loop 1: invariant thisprogram != nil && thisprogram.Fset != nil
@@ -611,6 +617,27 @@ package derive
 //@ assigns nothing
 //@ extern func (b *bytes.Buffer) WriteTo(w io.Writer) (n int64, err error)
 //@ assigns nothing
+
+// The built-in contract Layer G uses for Printer.P / In / Out / HasContent ("append the formatted
+// line at the current indent; indent one deeper / one shallower; Out needs indent > 0; there is
+// content once a line was printed"), checked against the bodies in printer.go.
+//@ extern func fmt.Fprintf(w io.Writer, format string, a []interface{}) (n int, err error)
+//@ assigns nothing
+//@ func (p *printer) P(format string, a []interface{}) ()
+//@ assigns p.hasContent
+//@ ensures [has-content] p.hasContent
+//@ assert-at-call fmt.Fprintf: [line-as-formatted] $arg0 == p.w && $arg1 == p.indent + format + "\n" && $arg2 == a
+//@ func (p *printer) In() ()
+//@ assigns p.indent
+//@ ensures [one-deeper] p.indent == old(p.indent) + "\t"
+//@ func (p *printer) Out() ()
+//@ assigns p.indent
+//@ requires [indented] len(p.indent) > 0
+//@ ensures [one-shallower] len(p.indent) == len(old(p.indent)) - 1
+//@ func (p *printer) HasContent() (r bool)
+//@ pure
+//@ reads-heap
+//@ ensures [as-recorded] r == p.hasContent
 
 //@ func (p *printer) WriteTo(file io.Writer) (n int64, err error)
 //@ assigns nothing
